@@ -23,6 +23,8 @@ type input struct {
 	NDest int    `json:"ndest"`
 	B64   string `json:"input_b64"`
 	Name  string `json:"name"`
+	Mode  string `json:"mode,omitempty"` // "" = to_nsq, "ack" = nsq_to_nsq / nsq_to_http run
+	Ack   *ackIn `json:"ack,omitempty"`
 }
 
 func genInput(r *lib.Rand, k int) input {
@@ -138,20 +140,25 @@ func runOne(bin string, in input) (lib.Case, error) {
 	if exit != 0 {
 		tags = append(tags, "exit=nonzero")
 	}
-	coq := fmt.Sprintf("(J20.mk %d %d%%nat %s %s)", in.Delim, in.NDest, lib.CoqBytes(data), lib.CoqList(got))
+	tags = append(tags, "tool=to_nsq")
+	coq := fmt.Sprintf("(J20.ToNsqCase (J20.mk %d %d%%nat %s %s))", in.Delim, in.NDest, lib.CoqBytes(data), lib.CoqList(got))
 	return lib.Case{Name: in.Name, Coq: coq, Input: in, Tags: tags, Nontrivial: total > 0,
 		Obs: map[string]interface{}{"exit": exit, "published_total": total}}, nil
 }
 
 func main() {
-	n := flag.Int("n", 100, "number of generated cases")
+	n := flag.Int("n", 100, "number of generated to_nsq cases")
+	nack := flag.Int("nack", 10, "number of generated nsq_to_nsq / nsq_to_http runs")
+	mode := flag.String("mode", "all", "all | to_nsq | nsq_to_nsq | nsq_to_http")
 	seed := flag.Uint64("seed", 1, "seed")
 	out := flag.String("out", "", "output jsonl")
 	replay := flag.String("replay", "", "replay file (inputs)")
 	flag.Parse()
 	bin := filepath.Join(os.Getenv("VERIF_BIN_DIR"), "to_nsq")
-	if _, err := os.Stat(bin); err != nil {
-		lib.Fatalf("to_nsq binary not found at %s", bin)
+	for _, b := range []string{"to_nsq", "nsq_to_nsq", "nsq_to_http"} {
+		if _, err := os.Stat(filepath.Join(os.Getenv("VERIF_BIN_DIR"), b)); err != nil {
+			lib.Fatalf("%s binary not found in %s", b, os.Getenv("VERIF_BIN_DIR"))
+		}
 	}
 	o := lib.NewOut(*out)
 	defer o.Close()
@@ -159,10 +166,25 @@ func main() {
 	if *replay != "" {
 		lib.ReadReplay(*replay, &inputs)
 	} else {
-		inputs = fixedInputs()
 		r := lib.NewRand(*seed)
-		for k := 0; k < *n; k++ {
-			inputs = append(inputs, genInput(r, k))
+		ra := r.Fork()
+		if *mode == "all" || *mode == "to_nsq" {
+			inputs = fixedInputs()
+			for k := 0; k < *n; k++ {
+				inputs = append(inputs, genInput(r, k))
+			}
+		}
+		if *mode != "to_nsq" {
+			var acks []input
+			acks = append(acks, fixedAcks()...)
+			for k := 0; len(acks) < *nack+len(fixedAcks()) && k < 100*(*nack+1); k++ {
+				acks = append(acks, genAck(ra, k))
+			}
+			for _, a := range acks {
+				if *mode == "all" || a.Ack.Tool == *mode {
+					inputs = append(inputs, a)
+				}
+			}
 		}
 	}
 	sem := make(chan struct{}, 8)
@@ -174,6 +196,14 @@ func main() {
 		go func(i int) {
 			defer wg.Done()
 			defer func() { <-sem }()
+			if inputs[i].Mode == "ack" {
+				c, err := runAck(inputs[i])
+				if err != nil {
+					lib.Fatalf("%s: %v", inputs[i].Name, err)
+				}
+				results[i] = c
+				return
+			}
 			c, _ := runOne(bin, inputs[i])
 			results[i] = c
 		}(i)
